@@ -55,6 +55,46 @@ def Shadow.step (sh : Shadow) (a : Action) (idx : Nat) (api : String) : Shadow :
   | .replace v x => { sh with prog := { sh.prog with vars := sh.prog.vars.modify v fun _ => x } }
   | _ => sh
 
+/-- invocation events of one action: (closure, node, args text, result text) -/
+def invs (a : ActionRec) : List (String × Nat × String × String) :=
+  a.evs.filterMap fun e =>
+    match words e with
+    | "inv" :: fn_at :: rest =>
+      match fn_at.splitOn "@n" with
+      | [f, n] => do
+        let n ← n.toNat?
+        let tail := joinWith " " rest
+        match tail.splitOn "->" with
+        | [args, res] => pure (f, n, args, res)
+        | args :: res => pure (f, n, args, joinWith "->" res)
+        | _ => none
+      | _ => none
+    | _ => none
+
+/-- integer view of the first argument in an `inv` event's argument text `(a0,a1,…)` -/
+def firstArgInt (args : String) : Int :=
+  let inner := ((args.drop 1).dropEnd 1).toString
+  let first :=
+    if inner.startsWith "(" then (inner.splitOn ")").headD "" ++ ")"
+    else if inner.startsWith "{" then (inner.splitOn "}").headD "" ++ "}"
+    else (inner.splitOn ",").headD "0"
+  ((parseVal first).map Val.toInt).getD 0
+
+/-- variables made by `scopedvar` in the bind closures that ran in this action: they take the next variable
+ordinals, in the order of the runs.  Their values are not followed (they may be written later): the slot is
+there so that the ordinals of variables created afterwards stay right. -/
+def Shadow.scoped (sh : Shadow) (h : History) (rec_ : ActionRec) : Shadow :=
+  (invs rec_).foldl (fun sh (f, _, args, _) =>
+    if f.startsWith "b" then
+      match (f.drop 1).toString.toNat? with
+      | some bi =>
+        (h.defs.toEnv.body bi (.int (firstArgInt args))).instrs.foldl (fun sh i =>
+          match i with
+          | .scopedVar v => { sh with prog := { sh.prog with vars := sh.prog.vars.push v } }
+          | _ => sh) sh
+      | none => sh
+    else sh) sh
+
 def Shadow.inUse (sh : Shadow) (o : Nat) : Bool :=
   match sh.obs[o]? with
   | some (_, c, d, _) => c > 0 && !d
@@ -99,7 +139,7 @@ def holdsC01 (h : History) (tr : ImplTrace) : Verdict := Id.run do
   let mut idx := 0
   for a in h.actions do
     let rec_ := tr[idx]?.getD {}
-    sh := sh.step a idx rec_.api
+    sh := (sh.step a idx rec_.api).scoped h rec_
     match a with
     | .stabilise =>
       if rec_.api == "ok" then
@@ -158,7 +198,7 @@ def holdsC09 (h : History) (tr : ImplTrace) : Verdict := Id.run do
     | _ => none
   for a in h.actions do
     let rec_ := tr[idx]?.getD {}
-    sh := sh.step a idx rec_.api
+    sh := (sh.step a idx rec_.api).scoped h rec_
     for (t, k, v) in notifs rec_ do
       let (ini, inv, last) := (st.lookup t).getD (false, false, "")
       if inv then return some s!"action {idx}: t{t} got {k} after Invalidated"
@@ -168,7 +208,16 @@ def holdsC09 (h : History) (tr : ImplTrace) : Verdict := Id.run do
         if ini then return some s!"action {idx}: t{t} got a second Initialised"
       else if k == "Changed" then
         if !ini then return some s!"action {idx}: t{t} got Changed before Initialised"
-        if v == last && !(custom.contains node) then
+        -- `depend_on` nodes carry their own cutoff (`preserve_cutoff`: compares the two nodes' changed_at),
+        -- and what a shared cell names is not known from the text
+        let ownCutoff := match node with
+          | .outer k => (match sh.prog.nodes[k]? with
+            | some (.dependOn _ _) => true
+            | some (.mapWithOld _ _) => true     -- the closure itself says whether the result changed
+            | _ => false)
+          | .slot _ => true
+          | _ => false
+        if v == last && !(custom.contains node) && !ownCutoff then
           return some s!"action {idx}: t{t} got Changed({v}) but the value did not change"
       if k != "Invalidated" then
         let got := (rec_.reads.lookup o).getD "missing"
@@ -185,22 +234,6 @@ def Shadow.absOf (sh : Shadow) (o : Opnd) : Option Nat :=
   | .abs n => some n
   | .loc _ => none
   | .slot _ => none
-
-/-- invocation events of one action: (closure, node, args text, result text) -/
-def invs (a : ActionRec) : List (String × Nat × String × String) :=
-  a.evs.filterMap fun e =>
-    match words e with
-    | "inv" :: fn_at :: rest =>
-      match fn_at.splitOn "@n" with
-      | [f, n] => do
-        let n ← n.toNat?
-        let tail := joinWith " " rest
-        match tail.splitOn "->" with
-        | [args, res] => pure (f, n, args, res)
-        | args :: res => pure (f, n, args, joinWith "->" res)
-        | _ => none
-      | _ => none
-    | _ => none
 
 /-- transitive children of `roots` in a snapshot -/
 def cone (snaps : List NodeSnap) (roots : List Nat) : List Nat :=
@@ -283,7 +316,7 @@ def holdsC05 (h : History) (tr : ImplTrace) : Verdict := Id.run do
           else
             return some s!"action {idx}: {f}@n{n} ran although it is in no live observer's cone at call or at return"
     | _ => pure ()
-    sh := sh.step a idx rec_.api
+    sh := (sh.step a idx rec_.api).scoped h rec_
     idx := idx + 1
   return none
 
@@ -319,7 +352,7 @@ def holdsC07 (h : History) (tr : ImplTrace) : Verdict := Id.run do
         if now != "err NeverStabilised" && rec_.api.startsWith "ok" then
           return some s!"action {idx}: the new observer o{o} reads `{now}`"
       | _ => pure ()
-    sh := sh.step a idx rec_.api
+    sh := (sh.step a idx rec_.api).scoped h rec_
     idx := idx + 1
   return none
 
@@ -424,26 +457,27 @@ def holdsC08 (h : History) (tr : ImplTrace) : Verdict := Id.run do
               if sn.val != want then
                 return some s!"action {idx}: var v{v} was recomputed to {sn.val} but its value when stabilise was called was {want}"
           | none => pure ()
-      -- deferred writes: effects of the closures that ran, in order
-      for (f, _, _, _) in invs rec_ do
+      -- deferred writes: effects of the closures that ran, in order; bind closures that ran made their
+      -- `scopedvar` variables (numbered in the order of the runs; their watch nodes are not followed)
+      for (f, _, args, _) in invs rec_ do
         if f.startsWith "f" then
           match (f.drop 1).toString.toNat? with
           | some fi => vals := effs ((h.defs.fns.lookup fi).map (·.effects) |>.getD []) vals
+          | none => pure ()
+        if f.startsWith "b" then
+          match (f.drop 1).toString.toNat? with
+          | some bi =>
+            let lhs : Val := .int (firstArgInt args)
+            for i in (h.defs.toEnv.body bi lhs).instrs do
+              match i with
+              | .scopedVar v => vals := vals.push v; varNode := varNode.push 1000000000
+              | _ => pure ()
           | none => pure ()
       for (t, _, _) in notifs rec_ do
         vals := effs ((h.defs.hdls.lookup (tokHdl[t]?.getD 0)).getD []) vals
     | _ => pure ()
     idx := idx + 1
   return none
-
-/-- integer view of the first argument in an `inv` event's argument text `(a0,a1,…)` -/
-def firstArgInt (args : String) : Int :=
-  let inner := ((args.drop 1).dropEnd 1).toString
-  let first :=
-    if inner.startsWith "(" then (inner.splitOn ")").headD "" ++ ")"
-    else if inner.startsWith "{" then (inner.splitOn "}").headD "" ++ "}"
-    else (inner.splitOn ",").headD "0"
-  ((parseVal first).map Val.toInt).getD 0
 
 /-- how many nodes one template instruction creates (`none`: not statically known) -/
 def instrNodeCount : Instr → Option Nat
@@ -580,7 +614,7 @@ def holdsC06 (h : History) (tr : ImplTrace) : Verdict := Id.run do
   for a in h.actions do
     let rec_ := tr[idx]?.getD {}
     let pre := if idx == 0 then ({} : ActionRec) else tr[idx - 1]?.getD {}
-    sh := sh.step a idx rec_.api
+    sh := (sh.step a idx rec_.api).scoped h rec_
     match a with
     | .create (.cutoff n c) =>
       match sh.absOf n with
@@ -731,7 +765,7 @@ def holdsC19 (h : History) (tr : ImplTrace) : Verdict := Id.run do
       else if rec_.api == "ok" then limit := m
     | _ => pure ()
     if !((words rec_.stats).contains "status=NotStabilising") && !rec_.stats.isEmpty then poisoned := true
-    sh := sh.step a idx rec_.api
+    sh := (sh.step a idx rec_.api).scoped h rec_
     idx := idx + 1
   return none
 
@@ -747,7 +781,7 @@ def holdsC13 (h : History) (tr : ImplTrace) : Verdict := Id.run do
   let applicable := h.c01Applicable' && bodiesApplicable h
   for a in h.actions do
     let rec_ := tr[idx]?.getD {}
-    sh := sh.step a idx rec_.api
+    sh := (sh.step a idx rec_.api).scoped h rec_
     match a with
     | .arm _ => armed := true
     | .stabilise =>
@@ -822,7 +856,7 @@ def holdsC14 (h : History) (tr : ImplTrace) : Verdict := Id.run do
     | _ => true
   for a in h.actions do
     let rec_ := tr[idx]?.getD {}
-    sh := sh.step a idx rec_.api
+    sh := (sh.step a idx rec_.api).scoped h rec_
     match a with
     | .create (.expert f) =>
       match sh.topAbs.back? with
@@ -963,7 +997,7 @@ def holdsC15 (h : History) (tr : ImplTrace) : Verdict := Id.run do
   let mut idx := 0
   for a in h.actions do
     let rec_ := tr[idx]?.getD {}
-    sh := sh.step a idx rec_.api
+    sh := (sh.step a idx rec_.api).scoped h rec_
     match a with
     | .stabilise =>
       if rec_.api == "ok" then
@@ -1015,7 +1049,7 @@ def holdsC17 (h : History) (tr : ImplTrace) : Verdict := Id.run do
   let mut idx := 0
   for a in h.actions do
     let rec_ := tr[idx]?.getD {}
-    sh := sh.step a idx rec_.api
+    sh := (sh.step a idx rec_.api).scoped h rec_
     match a with
     | .stabilise =>
       if rec_.api == "ok" then
@@ -1077,7 +1111,7 @@ def holdsC16 (h : History) (tr : ImplTrace) : Verdict := Id.run do
   let mut idx := 0
   for a in h.actions do
     let rec_ := tr[idx]?.getD {}
-    sh := sh.step a idx rec_.api
+    sh := (sh.step a idx rec_.api).scoped h rec_
     match a with
     | .stabilise =>
       if rec_.api == "ok" then
@@ -1124,7 +1158,7 @@ def holdsC12 (h : History) (tr : ImplTrace) : Verdict := Id.run do
   let mut idx := 0
   for a in h.actions do
     let rec_ := tr[idx]?.getD {}
-    sh := sh.step a idx rec_.api
+    sh := (sh.step a idx rec_.api).scoped h rec_
     match a with
     | .create i =>
       match rec_.api.splitOn "#" with
@@ -1214,9 +1248,48 @@ def holdsC20 (h : History) (tr : ImplTrace) : Verdict := Id.run do
     idx := idx + 1
   return none
 
+/-- the part of well-formedness that depends on what exists at run time: a variable action must name a
+variable that exists (variables made by `scopedvar` inside bind closures are numbered as the closures run)
+and whose handle has not been dropped.  Decided on the MODEL's run of the history. -/
+def wellFormedDyn (h : History) : Verdict :=
+  let env := h.defs.toEnv
+  let init : RunState := { s := State.init h.maxHeight h.debug }
+  let (_, bad) := h.actions.zipIdx.foldl (fun (acc : RunState × Option String) (a, i) =>
+    match acc.2 with
+    | some _ => acc
+    | none =>
+      let rs := acc.1
+      let missing : Option String := match a with
+        | .set v _ | .modify v _ | .update v _ | .replace v _ | .replaceWith v _ | .get v =>
+          match rs.s.vars[v]? with
+          | none => some s!"action {i}: no such var (yet)"
+          | some vc => if vc.handles == 0 then some s!"action {i}: var handle dropped" else none
+        | .dropVar v => if rs.s.vars[v]?.isNone then some s!"action {i}: no such var (yet)" else none
+        | .create (.map f _) =>
+          if (((h.defs.fns.lookup f).map (·.effects)).getD []).any (fun e => match e with
+            | .setVar v _ | .modifyVar v _ | .updateVar v _ | .replaceVar v _ | .replaceWithVar v _ =>
+              rs.s.vars[v]?.isNone
+            | _ => false) then some s!"action {i}: effect of f{f} writes a variable that does not exist (yet)" else none
+        | .subscribe _ hid =>
+          if ((h.defs.hdls.lookup hid).getD []).any (fun e => match e with
+            | .setVar v _ | .modifyVar v _ | .updateVar v _ | .replaceVar v _ | .replaceWithVar v _ =>
+              rs.s.vars[v]?.isNone
+            | _ => false) then some s!"action {i}: handler h{hid} writes a variable that does not exist (yet)" else none
+        | _ => none
+      match missing with
+      | some m => (rs, some m)
+      | none => ((traceAction env i a rs).1, none)) (init, none)
+  bad
+
+def hasScopedVar (h : History) : Bool :=
+  h.defs.bodies.any fun (_, _, alts) => alts.any fun t => t.instrs.any fun i =>
+    match i with | .scopedVar _ => true | _ => false
+
 def evalProp (prop : String) (h : History) (tr : ImplTrace) : Verdict :=
   match prop with
-  | "WF" => wellFormed h
+  | "WF" => match wellFormed h with
+    | some r => some r
+    | none => if hasScopedVar h then wellFormedDyn h else none
   | "C01" => holdsC01 h tr
   | "C02" => holdsC02 h tr
   | "C03" => holdsC03 h tr
